@@ -249,7 +249,7 @@ def fp_env(env):
 class C17:
     PROP = "C17"
     LEVEL = "exploration"
-    RUN_S = 40   # watchdog allowance per run: every reference costs a (system-wide serialised) fork
+    RUN_S = 240   # watchdog allowance per run: every reference costs a (system-wide serialised) fork
     TIERS = {
         "quick": {"runs": 2400, "budget_s": 60, "chunk": 4, "determinism_runs": 12, "minimise_s": 30},
         "thorough": {"runs": 400000, "budget_s": 1500, "chunk": 8, "determinism_runs": 64, "minimise_s": 240},
@@ -398,7 +398,7 @@ class C17:
         # whose outcome depends on what ran before it differs between A and B; (C) a sample of
         # the renders is also compared with the pristine fork (no history at all), which catches
         # dependence that happens to be symmetric under reordering.
-        res = fork.run_in_fork(self._run_here, sc)
+        res = fork.run_in_fork(self._run_here, sc, timeout_s=900)
         probes = res.pop("probes")
         st = res["stats"]
         if res["violations"] or not probes:
